@@ -566,6 +566,18 @@ class Report:
               'wall_s': round(time.time() - self.t0, 2), 'violations': len(self.violations)}
         if self.known:
             ev['coverage']['known_findings_reported'] = self.known
+        # keys typed by EVIDENCE.schema.json must keep their type; anything else is kept under <key>_detail
+        types = {'evaluations': int, 'distinct_nontrivial': int, 'rule': str, 'samples': list, 'states': int,
+                 'transitions': int, 'traces_validated_against_impl': int, 'obligations': int, 'discharged': int,
+                 'checker_cmd': str, 'trusted_base': list, 'programs': int, 'disagreements_checked': int,
+                 'explanation': str, 'exhaustive': bool}
+        for k, t in types.items():
+            if k in ev['coverage']:
+                v = ev['coverage'][k]
+                if not isinstance(v, t) or (t is int and isinstance(v, bool)):
+                    ev['coverage'][k + '_detail'] = ev['coverage'].pop(k)
+        if 'samples' not in ev['coverage'] or not ev['coverage']['samples']:
+            ev['coverage']['samples'] = [ev['coverage'].get('samples_detail', 'none recorded')]
         os.makedirs(os.path.join(VERIF, 'evidence'), exist_ok=True)
         json.dump(ev, open(os.path.join(VERIF, 'evidence', self.prop + '.json'), 'w'), indent=1, ensure_ascii=False)
         return 1 if self.violations else 0
